@@ -151,7 +151,21 @@ fn short_forms() -> &'static Vec<(Ev, String)> {
                 a.push("i");
                 a.push("2i");
             }
+            // bracketed negations as left factors and right factors at the edge of the type: (-c)(R) is (-c)*R, which is
+            // not -(c*R) when c*R leaves the range (or the type) and the negation brings it back
+            match ev {
+                Ev::I64 => a.extend(["(-2)", "(-@)", "(-8)"]),
+                Ev::Num => a.extend(["(-2)", "(-@)", "(-0.5)"]),
+                Ev::Cpx => a.extend(["(-2)", "(-i)"]),
+                _ => a.extend(["(-2)", "(-@)"]),
+            }
             let mut b: Vec<&str> = vec!["(3)", "(1+2)", "abs(-3)", "sqrt(4)"];
+            match ev {
+                Ev::I64 | Ev::Num => b.extend(["(4611686018427387904)", "(0)", "(@)"]),
+                Ev::Dec => b.extend(["(39614081257132168796771975168)", "(0)"]),
+                Ev::F64 => b.extend(["(0)", "(@)"]),
+                Ev::Cpx => {}
+            }
             if vocab::has_floor_brackets(ev) {
                 b.extend(["⌊3.5⌋", "⌈2.5⌉"]);
             }
@@ -334,7 +348,8 @@ impl Prop for C12Prop {
             "short" => short_forms().get(idx as usize)?.clone(),
             _ => rejection_block().get(idx as usize)?.clone(),
         };
-        let ph = ph_pool(ev)[3 % ph_pool(ev).len()].clone();
+        let pool = ph_pool(ev);
+        let ph = if s.contains('@') { pool[idx as usize % pool.len()].clone() } else { pool[3 % pool.len()].clone() };
         Some(Case::new(ev, s, ph))
     }
     fn gen(&self, _sub: &str, c: &mut dyn Choices) -> Option<Case> {
